@@ -292,6 +292,8 @@ def check(ctx: Ctx) -> list[RuleResult]:
                             muts.append((fm, n))
                         elif isinstance(n, ast.Call) and isinstance(n.func, ast.Attribute) and n.func.attr in MUT6 and norm(n.func.value) == f"self.{tgt}":
                             muts.append((fm, n))
+                        elif isinstance(n, ast.AugAssign) and norm(n.target) == f"self.{tgt}" and isinstance(n.op, (ast.BitOr, ast.Add, ast.Sub, ast.BitAnd)):
+                            muts.append((fm, n))  # `self.x |= {...}` / `+= [...]` call __ior__/__iadd__: the shared object is changed in place
                         elif isinstance(n, (ast.Assign, ast.AnnAssign)) and fm.name == "__init__":
                             for t in n.targets if isinstance(n, ast.Assign) else [n.target]:
                                 if norm(t) == f"self.{tgt}":
